@@ -321,6 +321,7 @@ namespace hs
         c.no_blocks    = std::size_t(p.num("no_blocks" + sfx, p.num("no_blocks", 4)));
         c.vary         = unsigned(p.num("vary" + sfx, p.num("vary", 0)));
         c.mbs_n        = which ? 0 : std::size_t(p.num("mbs_n", 0));
+        c.raii         = p.num("raii", 0) != 0;
         c.owner        = OWNER_FIRST + next_owner_++; // unique per construction
         return c;
     }
